@@ -208,3 +208,49 @@ SPECS = [
     Spec("behavior", h_behavior, {"quick": {}, "thorough": {}}, covers=["behavior"], native_patch=env.native_env,
          desc="the behavior decorator for valid and invalid modes/creators"),
 ]
+
+
+def EXTRA(tier, seed):
+    """schedule BMC of concurrent first calls on a 'single' class (symbmc)"""
+    import os
+    import json
+    from symbmc import instances
+    from pysym import check as C
+    out = {"lines": [], "violations": 0, "errors": [], "inconclusive": [], "known_hit": {}, "coverage": {}, "assumptions": []}
+    cfgs = [(2, 24)] if tier == "quick" else [(2, 30), (3, 40)]
+    runs = []
+    samples = []
+    states = transitions = validated = 0
+    for T, K in cfgs:
+        r = instances.check(T, K)
+        print("[C09/symbmc] %d concurrent first calls, K=%d: %s wall=%.1fs nodes=%d" % (T, K, r["result"], r["wall_s"], r["nodes"]), flush=True)
+        runs.append({"threads": T, "K": K, "result": r["result"], "wall_s": round(r["wall_s"], 2), "nodes": r["nodes"],
+                     "assertions": r["assertions"], "completion_reachable": r["completion_reachable"],
+                     "untranslated_but_unreachable_nodes": r["untranslated_nodes"]})
+        states += K + 1
+        transitions += K * r["nodes"]
+        out["coverage"]["functions_encoded_symbmc"] = r["encoded"]
+        if r["completion_reachable"] != "sat":
+            out["errors"].append("vacuity guard: callers cannot complete within K=%d" % K)
+        if r["result"] == "sat":
+            v = r["violation"]
+            det = instances.replay(T, v["schedule"], v["label"], v["model_lines"])
+            if not det["reproduced"]:
+                out["errors"].append("schedule for '%s' does not reproduce on the real Daemon: %r" % (v["label"], det))
+                continue
+            os.makedirs(os.path.join(C.OUT, "replays"), exist_ok=True)
+            path = os.path.join(C.OUT, "replays", "C09-symbmc-%d.json" % T)
+            json.dump({"property": "C09", "engine": "symbmc", "target": "instances", "threads": T, "label": v["label"],
+                       "schedule": v["schedule"], "model_lines": v["model_lines"]}, open(path, "w"), indent=1)
+            out["lines"].append("VIOLATION property=C09 replay=%s" % path)
+            out["lines"].append("  '%s' with %d concurrent first calls; the schedule reproduces on the real Daemon with real threads: %r" % (v["label"], T, det))
+            out["violations"] += 1
+            validated += 1
+            samples.append({"threads": T, "schedule": v["schedule"], "replay": det})
+        elif r["result"] != "unsat":
+            out["inconclusive"].append("solver answered %s" % r["result"])
+    out["coverage"].update({"states": states, "transitions": transitions, "traces_validated_against_impl": validated,
+                            "samples": samples, "symbmc_runs": runs})
+    out["assumptions"] = ["statement-level atomicity (CPython GIL)", "createInstance is abstracted as one creation step",
+                          "at most K statements per schedule; thread counts as listed"]
+    return out
